@@ -55,11 +55,14 @@ Fixpoint put_dr (x : drec) (l : list drec) : list drec :=
   | r :: t => if dp r =? dp x then x :: t else r :: put_dr x t
   end.
 
-(* sort.Slice(r.Addrs, Expiry <) *)
+(* sort.Slice(r.Addrs, Expiry <).  For at most 12 entries Go's sort.Slice IS an insertion sort
+   that moves an element left only past strictly greater ones: entries of equal expiry keep
+   their order (this order decides the victim of the per-peer cap on ties, Model_cap.v).
+   sort_exp (x :: t) inserts x into the sorted tail, so x goes before the entries >= x. *)
 Fixpoint ins_exp (x : dent) (l : list dent) : list dent :=
   match l with
   | [] => [x]
-  | y :: t => if dexp y <=? dexp x then y :: ins_exp x t else x :: y :: t
+  | y :: t => if dexp y <? dexp x then y :: ins_exp x t else x :: y :: t
   end.
 Definition sort_exp (l : list dent) : list dent := fold_right ins_exp [] l.
 
